@@ -412,3 +412,30 @@ std::vector<uint64_t> guardPcs() {
     }
     return v;
 }
+
+// Runs f on a newly created thread (8 MiB stack, crash containment installed) and waits for it.  Used for the
+// sequential reference of C18: "the call executed alone" means alone on a thread with no history — pristine
+// thread-local storage, errno 0 — so that a result which depends on the calls made earlier on the same thread
+// differs from it.
+namespace {
+void *freshMain(void *vp) {
+    containInstall();
+    (*(std::function<void()> *)vp)();
+    containThreadExit();
+    return nullptr;
+}
+}  // namespace
+void schedRunOnFreshThread(const std::function<void()> &f) {
+    pthread_attr_t attr;
+    pthread_attr_init(&attr);
+    pthread_attr_setstacksize(&attr, 8 << 20);
+    pthread_t th;
+    std::function<void()> copy = f;
+    if (pthread_create(&th, &attr, freshMain, &copy) != 0) {
+        pthread_attr_destroy(&attr);
+        f();  // cannot create a thread: run in place
+        return;
+    }
+    pthread_attr_destroy(&attr);
+    pthread_join(th, nullptr);
+}
